@@ -96,3 +96,5 @@ rule('C18.10')(c05.repr_limits)                 # repr round trip: a string / ne
 rule('C08.9')(c16.fold_claims_in_group_mode)      # group mode ends where another mode begins
 rule('C09.12')(c02.literal_passthrough)         # Optional / Match defaults: containers are rebuilt per evaluation
 rule('C14.10')(c01.conversion_and_index)       # a failing entry after a wildcard is dropped only if its failure became a PathAccessError
+rule('C20.17')(c05.message_memo_follows_finalisation)   # a re-entrant call's error keeps its own trace
+rule('C06.15')(c05.message_memo_follows_finalisation)   # the rendered error does not depend on an earlier str()
